@@ -46,3 +46,17 @@ Theorem C08_idle_cools : forall w now pq u,
   sync_token w now pq = WVal u ->
   wu_stored u = wu_max w - f64_to_u64 pq /\ wu_last u = now - now mod 1000.
 Proof. exact c08_idle_cools. Qed.
+
+(** more stored tokens never give a larger allowance (binary64, all roundings included): the
+    allowed threshold is antitone in the tokens above the warning line *)
+From SV Require Import Proofs.C08Float.
+From Coq Require Import Reals.
+From Flocq Require Import Core Binary.
+Theorem C08_allowance_antitone_in_tokens : forall w s1 s2,
+  is_finite 53 1024 (wu_thr w) = true -> (0 < B2R 53 1024 (wu_thr w))%R ->
+  is_finite 53 1024 (wu_slope w) = true -> (0 <= B2R 53 1024 (wu_slope w))%R ->
+  (wu_warning w <= s1)%N -> (s1 <= s2)%N ->
+  is_finite 53 1024 (allowed_of (with_stored w s1)) = true ->
+  is_finite 53 1024 (allowed_of (with_stored w s2)) = true ->
+  fle (allowed_of (with_stored w s2)) (allowed_of (with_stored w s1)) = true.
+Proof. exact c08_allowed_antitone. Qed.
